@@ -483,8 +483,21 @@ def run_impl(case):
     if k == "cleanup":
         return run_cleanup(case)
     if k == "e2e":
-        with contextlib.redirect_stdout(io.StringIO()):
-            return run_e2e(case)
+        import signal
+
+        def on_timeout(signum, frame):
+            raise TimeoutError("e2e case exceeded its CPU budget")
+
+        old = signal.signal(signal.SIGVTALRM, on_timeout)
+        signal.setitimer(signal.ITIMER_VIRTUAL, 120)
+        try:
+            with contextlib.redirect_stdout(io.StringIO()):
+                return run_e2e(case)
+        except (TimeoutError, MemoryError) as e:
+            return {"skip": "budget:" + type(e).__name__, "cuts": len(case["history"]), "problems": []}
+        finally:
+            signal.setitimer(signal.ITIMER_VIRTUAL, 0)
+            signal.signal(signal.SIGVTALRM, old)
     raise ValueError(k)
 
 
@@ -724,7 +737,8 @@ def _graph_diff(a, b):
             return None
         if isinstance(x, functools.partial) or isinstance(y, functools.partial):
             continue
-        if type(x) is not type(y):
+        if type(x) is not type(y) and not (isinstance(x, dict) and isinstance(y, dict)):
+            # (AttributeDict vs dict is invisible: every variable read re-wraps dicts, eval.py)
             return f"{path}: type {type(x).__name__} vs {type(y).__name__}"
         if x is None or isinstance(x, (bool, int, float, str)):
             if x != y and not (isinstance(x, float) and x != x):
@@ -1163,9 +1177,12 @@ def shrink(case):
         for i in range(len(h)):
             if len(h) > 1:
                 yield dict(case, history=h[:i] + h[i + 1:])
+        # only statements of `main` that do not wait are dropped (dropping a `match` can create a flow that
+        # restarts without ever waiting, i.e. a non-terminating program: C10 territory, not C11)
         lines = case["src"].split("\n")
+        start = lines.index("flow main") if "flow main" in lines else len(lines)
         for i, l in enumerate(lines):
-            if l.startswith("  ") and not l.startswith("   ") and "global" not in l:
+            if i > start and re.match(r"  (\$|send |start |activate )", l):
                 yield dict(case, src="\n".join(lines[:i] + lines[i + 1:]))
     elif case["kind"] == "cleanup":
         fl = case["flows"]
